@@ -25,16 +25,16 @@ type c13Case struct {
 	Mode  string `json:"mode"`  // cancel | deadline
 	N     int    `json:"n"`     // backoff: cancel inside the n-th sleep
 	// Batch shape: number of calls and which of them are the affected ones
-	BatchLen int    `json:"batch_len,omitempty"`
-	Affected []int  `json:"affected,omitempty"` // indices whose own context ends / which are held
-	Shared   bool   `json:"shared,omitempty"`   // calls use the batch context
+	BatchLen int   `json:"batch_len,omitempty"`
+	Affected []int `json:"affected,omitempty"` // indices whose own context ends / which are held
+	Shared   bool  `json:"shared,omitempty"`   // calls use the batch context
 	// Split puts the affected calls on another server than the others, so that the
 	// others are answered while the affected ones are held
-	Split bool `json:"split,omitempty"`
-	Key      evid.B `json:"key"`
-	Class    string `json:"class,omitempty"` // retryable class for backoff
-	Queue    int    `json:"queue"`
-	FlushMS  int    `json:"flush_ms"`
+	Split   bool   `json:"split,omitempty"`
+	Key     evid.B `json:"key"`
+	Class   string `json:"class,omitempty"` // retryable class for backoff
+	Queue   int    `json:"queue"`
+	FlushMS int    `json:"flush_ms"`
 }
 
 func c13Valid(c c13Case) bool {
